@@ -186,7 +186,7 @@ func sizePhases(p *seqProp, tier string, widthDepth int, allOpts bool) []*seqPro
 	if tier == "thorough" {
 		sizes = sweepSizes(70, 100, 128, 200, 256, 500, 512, 1000, 1024)
 	}
-	return []*seqProp{stringSizePhase(p, tier), widthSizePhase(p, sizes, widthDepth, allOpts), productPhase(p, tier), scriptPhase(p, tier), prefixNamesPhase(p)}
+	return []*seqProp{stringSizePhase(p, tier), widthSizePhase(p, sizes, widthDepth, allOpts), productPhase(p, tier), scriptPhase(p, tier), prefixNamesPhase(p), twinsPhase(p)}
 }
 
 // under runs a size alphabet on a sized document that sits at pointer prefix inside a larger one: every
@@ -506,5 +506,27 @@ func prefixNamesPhase(p *seqProp) *seqProp {
 	a := &AlphaCfg{Values: v1n, ReplValues: v1n, MaxFroms: 12, NoRootAdd: nra, NoRootPtr: true}
 	d.Alpha = []*AlphaCfg{a, {Values: v1n, ReplValues: v1n, Kinds: kinds("remove", "add", "test", "move"), MaxFroms: 3, NoRootAdd: nra, NoRootPtr: true}}
 	d.Rule = "PREFIX NAMES: two documents whose member names / indices are string prefixes of one another without being ancestors (a, ab, a1; k1, k12; the empty name; elements 1 and 10; tpl, tpls); all sequences <= 2 over Sigma(D) with null as the only value; same oracle"
+	return &d
+}
+
+// twinsPhase: sibling objects (and array elements) with IDENTICAL ordered member-name lists of 1..9 names -
+// what one of them gains or loses must not show in the other (a name list shared between look-alikes).
+func twinsPhase(p *seqProp) *seqProp {
+	d := *p
+	d.Docs = nil
+	for _, n := range []int{1, 2, 3, 5, 9} {
+		var ms []string
+		for i := 0; i < n; i++ {
+			ms = append(ms, fmt.Sprintf(`"n%d":%d`, i, i))
+		}
+		o := "{" + strings.Join(ms, ",") + "}"
+		d.Docs = append(d.Docs, `{"p":`+o+`,"q":`+o+`,"r":[`+o+`,`+o+`]}`)
+	}
+	d.Depth = 2
+	d.Opts = p.Opts[:1]
+	nra := len(p.Alpha) > 0 && p.Alpha[0].NoRootAdd
+	a := &AlphaCfg{Values: v1n, ReplValues: v1n, Kinds: kinds("add", "remove", "test", "move"), MaxFroms: 3, NoRootAdd: nra, NoRootPtr: true}
+	d.Alpha = []*AlphaCfg{a, a}
+	d.Rule = "TWINS: sibling objects and array elements with identical ordered name lists of 1, 2, 3, 5, 9 names; all sequences <= 2 of add / remove / test / move; same oracle"
 	return &d
 }
